@@ -81,6 +81,21 @@ CHECKS['C14'] = dict(
     note='Trusted: Lean kernel; floats/NaN outside the model; dicts canonicalised by key order; CPython builtin hash as a parameter.',
     design='7 (C14)')
 
+CHECKS['C15'] = dict(
+    technique='Lean 4 models of the explicit-stack loops of visit and traverse with theorems identifying them with recursive depth-first specifications (arbitrary sharing, identical leaves) + event-for-event correspondence on random object graphs',
+    text=('Proof: C15_visit_eq_first_occurrence_preorder and C15_traverse_events (loop = recursive specification for every tree with arbitrary identities, by induction on a stack measure), C15_visit_at_most_once (no object twice, only reachable ones), '
+          'C15_visit_complete (without sharing: exactly the reachable objects in pre-order), C15_traverse_brackets. Tie: real visit/traverse on random object graphs with shared sub-objects/containers and identical leaf objects (None, cached ints, '
+          'interned strings, the empty tuple) are compared object-for-object and event-for-event (by identity) with the Lean loops. PARTIAL: "not limited by recursion depth" is exercised on depth 3000..20000 only.'),
+    note='Trusted: Lean kernel; object graphs modelled as identity-labelled trees.',
+    design='7 (C15)')
+CHECKS['C16'] = dict(
+    technique='Lean 4 model of transform/_transform and the callback chain with theorems (once per node, post-order, identity law, metadata rule) + differential correspondence with callbacks given as data',
+    text=('Proof: C16_once_per_node (|log| = callbacks x object occurrences), C16_bottom_up (the first callback sees the occurrences in post-order, each rebuilt from transformed children), C16_identity, C16_metadata, '
+          'C16_copy_keeps_metadata, C16_leaves_and_lists. Tie: the real transform and the Lean model run the same data-described callbacks (identity, class-to-class with/without metadata, to scalar, to list, _replace, equal copy) on random trees; '
+          'result incl. metadata of every node, callback log with arguments, and the input afterwards are compared.'),
+    note='Trusted: Lean kernel; Python identity is abstracted to "callback returned its argument or a different object".',
+    design='7 (C16)')
+
 NOT_YET = {
 }
 
